@@ -252,6 +252,25 @@ func runC13(args []string) error {
 				}
 			}
 		}
+		// the whole store holds exactly the successful updates (a recovery replaces, it does not merge); path.Match
+		// patterns do not cross '/', so every depth is listed
+		{
+			var ps []kv.Pair
+			for _, pat := range []string{"*", "/*", "/*/*", "/*/*/*", "/*/*/*/*"} {
+				if allp, err := f.Lookup(kv.QueryAll{Pattern: pat}); err == nil {
+					ps = append(ps, allp.([]kv.Pair)...)
+				}
+			}
+			bad := len(ps) != len(ref)
+			for _, p := range ps {
+				if w, ok := ref[p.Key]; !ok || w != p {
+					bad = true
+				}
+			}
+			if bad {
+				sum.violate(c, "the store does not hold exactly the pairs of the successful updates", map[string]any{"log": fmt.Sprint(log), "steps": descr}, fmt.Sprintf("store %v, expected %v", ps, ref))
+			}
+		}
 		// replicas applying the same updates agree: second replica, one entry per apply call
 		g := kv.NewLFSM()(1, 2)
 		for _, e := range log {
